@@ -8,7 +8,7 @@ import itertools
 
 import datetime as dt
 
-from .. import wbspec
+from .. import pipeline, wbspec
 from ..findings import report
 from ..refcheck import judge_book, replay_case
 from ..xlref import evalr
@@ -190,6 +190,38 @@ def run_join(shard, ctx):
         vals.append([(0, 'L1', nt)])
     judge_book(ctx, ID, spec, [(0, a) for a in JOINERS + VALUERS + ['K1', 'K2', 'K3', 'K4', 'K5']], vals, exact=True, classify=classify,
                nontrivial=lambda case, outs: True, name='join', monitor='text-form-reference')
+    # two laws without a model. (a) a whole number of 16 or more digits has ONE text form whether it arrives as an int or as the float of
+    # the same value; (b) CONCATENATE(a,b) is one operand: next to any operator it behaves like (a&b)
+    cells2 = {'I1': 1, 'J1': 'x', 'P1': '=I1&""', 'P2': '=CONCATENATE("<",I1,">")', 'P3': '=LEFT(I1&"",4)'}
+    ops = ['*2', '/2', '-1', '%', '=J1&"2"', '&"z"', '<>J1', '+0']
+    for i, op in enumerate(ops):
+        cells2[f'Q{i + 1}'] = f'=CONCATENATE(J1,"2"){op}'
+        cells2[f'R{i + 1}'] = f'=(J1&"2"){op}'
+        cells2[f'S{i + 1}'] = f'=-CONCATENATE(J1,"2")' if i == 0 else f'=2*CONCATENATE(J1,"2")' if i == 1 else f'=CONCATENATE(J1,"2")'
+        cells2[f'T{i + 1}'] = f'=-(J1&"2")' if i == 0 else f'=2*(J1&"2")' if i == 1 else f'=(J1&"2")'
+    book2 = pipeline.Book(wbspec.spec(wbspec.sheet('S', cells2)), ctx.workdir, name='laws')
+
+    def same(o1, o2):
+        return (o1.ok == o2.ok) and ((o1.ok and type(o1.value) is type(o2.value) and o1.value == o2.value) or (not o1.ok and o1.exc_name == o2.exc_name))
+    for n in (10 ** 15, 10 ** 16, 123456789012345678, -(10 ** 15), 2 ** 60, 10 ** 15 + 1, 999999999999999):
+        for a in ('P1', 'P2', 'P3'):
+            oi, of = book2.value(0, a, [(0, 'I1', n)]), book2.value(0, a, [(0, 'I1', float(n))])
+            r.ev(2)
+            r.count('int_vs_float_text_form_checks')
+            r.nt(('intfloat', n, a))
+            if float(n) == n and not same(oi, of):
+                report(r, ID, None, {'formula': cells2[a], 'cell': a, 'sheet': 0, 'overrides': [[0, 'I1', n]], 'what': 'the same whole number as int and as float'},
+                       {'as_int': oi.brief(), 'as_float': of.brief()}, 'one text form', monitor='text-form-reference')
+    for j1 in ('1', 'x', '12', ''):
+        for i in range(len(ops)):
+            for ca, cb in ((f'Q{i + 1}', f'R{i + 1}'), (f'S{i + 1}', f'T{i + 1}')):
+                oa, ob = book2.value(0, ca, [(0, 'J1', j1)]), book2.value(0, cb, [(0, 'J1', j1)])
+                r.ev(2)
+                r.count('concatenate_as_operand_checks')
+                r.nt(('concat-operand', j1, ca))
+                if not same(oa, ob):
+                    report(r, ID, None, {'formula': cells2[ca], 'cell': ca, 'sheet': 0, 'overrides': [[0, 'J1', j1]], 'what': 'CONCATENATE(a,b) next to an operator against (a&b)'},
+                           {'CONCATENATE': oa.brief(), 'ampersand': ob.brief()}, 'the same outcome', monitor='text-form-reference')
     r.sample({'operands': [wbspec.enc(o) for o in OPERANDS], 'numeric_texts': NUMTEXTS})
 
 
